@@ -333,6 +333,12 @@ def rule_no_hang(ctx):
             if nexts:
                 ctx.ok(R, key, "iterator exhaustion loop (terminates with the finite iterator)", loc=body_loc(b))
                 continue
+            # (a') slice exhaustion: the loop takes the head off a slice with split_first / split_last and goes on with the
+            # (strictly shorter) rest; the None arm leaves the loop
+            splits = [bb for bb, t in b.calls() if bb in body and short(callee_path(t) or "").split("::")[-1] in ("split_first", "split_last")]
+            if splits:
+                ctx.ok(R, key, "slice exhaustion loop (each round continues with the strictly shorter rest of a finite slice)", loc=body_loc(b))
+                continue
             calls = [short(callee_path(t) or "") for bb, t in b.calls() if bb in body]
             if any(c.endswith("Dechunker::parse_input") for c in calls):
                 # progress: the loop leaves when the decoder consumed nothing; consumed is bounded by the input (R12.2)
